@@ -380,7 +380,16 @@ func (g *Gen) ptrTerm(a *Addr) string {
 		}
 		st := s.StructT.Underlying().(*types.Struct)
 		fn := "fld$" + g.structName(s.StructT) + "$" + st.Field(s.Field).Name()
-		g.decl("fun:"+fn, fmt.Sprintf("(declare-fun %s (Int) Int)", fn))
+		if !g.declSet["fun:"+fn] {
+			// interior pointers: injective in the root (ptrroot inverts them), different fields never
+			// coincide (ptrtag), and never equal to an allocation reference, a global or a function id (all
+			// above -2^40). The axiom is triggered by ground occurrences of the function only.
+			g.nInterior++
+			g.decl("fun:ptrtag", "(declare-fun ptrtag (Int) Int)")
+			g.decl("fun:ptrroot", "(declare-fun ptrroot (Int) Int)")
+			g.decl("fun:"+fn, fmt.Sprintf("(declare-fun %s (Int) Int)", fn))
+			g.decl("ax:"+fn, fmt.Sprintf("(assert (forall ((x Int)) (! (and (= (ptrtag (%s x)) %d) (= (ptrroot (%s x)) x) (< (%s x) (- 1099511627776))) :pattern ((%s x)))))", fn, g.nInterior, fn, fn, fn))
+		}
 		// interior pointers are distinct from allocation references: keep them negative and even-odd free by axiom-less injectivity
 		t = fmt.Sprintf("(%s %s)", fn, t)
 		cur = st.Field(s.Field).Type()
